@@ -190,7 +190,7 @@ bounded('c12_ref_urldecode', S_D, DEC_PRE + '''
   c12_tx.flags = fl; c12_tx.response_status_expected_number = st;
   size_t rl = ref_urldecode(&in.cf, C12_MAP, in.a, in.la, ref, &fx);
   VASSERT(rc == HTP_OK, "urldecode returns HTP_OK");
-''' + DEC_CMP % {'w': 'urldecoded string'}, 7, 9, unwindset=maploops(4), unwind_extra=1,
+''' + DEC_CMP % {'w': 'urldecoded string'}, 6, 8, unwindset=maploops(4), unwind_extra=1,
         extra_defs=dict(PATHCTX, C12_CTX='in.ctx', C12_SCOPE='(in.ctx == HTP_DECODER_URLENCODED || in.ctx == HTP_DECODER_URL_PATH || in.ctx == HTP_DECODER_DEFAULTS)'),
         assumes=A_CFG + A_SYMMAP + A_NOCONV + ['decoder context symbolic over its three enumerators'], flags_del=NOCONV, solver=CAD,
         sub='htp_urldecode_inplace_ex == reference generic decoder in every context, plus->space on/off, every configuration: bytes, length, HTP_URLEN_* indicator set, expected status')
@@ -248,7 +248,7 @@ contract('htp_normalize_uri_path_inplace', {'count': 4,
                  dec='2 * (len + 1 - rpos) + (c != -1 ? 1 : 0)'),
          1: dict(assigns='wpos', inv=['wpos < rpos', 'wpos <= len'], dec='wpos'),
          2: dict(assigns='wpos', inv=['wpos < rpos', 'wpos <= len'], dec='wpos'),
-         3: dict(assigns='rpos, wpos, ' + DATA, inv=['wpos <= rpos', 'rpos <= len'], dec='len - rpos')},
+         3: dict(assigns='rpos, wpos, ' + DATA, inv=['wpos <= rpos', 'rpos <= len', 'rpos >= __CPROVER_loop_entry(rpos)'], dec='len - rpos')},
          'void HARNESS(void) { bstr *s; htp_normalize_uri_path_inplace(s); CANARY(); }',
          sub="normaliser: memory safety; every write index is below the read cursor (wpos < rpos while a byte is pending, wpos <= rpos otherwise: never reads a byte it already overwrote); "
              "len' <= len; frame = {len, the data bytes}; terminates (variant 2(len+1-rpos)+[c pending])")
@@ -258,7 +258,7 @@ DEC_LOOP = dict(assigns='rpos, wpos, previous_was_separator, tx->flags, tx->resp
                 dec='len - rpos')
 contract('htp_decode_path_inplace', {'count': 1, 0: DEC_LOOP},
          'void HARNESS(void) { htp_tx_t *tx; bstr *path; htp_decode_path_inplace(tx, path); CANARY(); }',
-         replace=['x2c', 'decode_u_encoding_path'], assumes=A_LEGAL + ['x2c and decode_u_encoding_path replaced by their contracts (enforced by units x2c / backed for the real map by lemma c12_u_decode_realmap)'],
+         replace=['x2c/contract_x2c_site', 'decode_u_encoding_path'], assumes=A_LEGAL + ['x2c and decode_u_encoding_path replaced by their contracts (enforced by units x2c / backed for the real map by lemma c12_u_decode_realmap)'],
          sub="path decoder: memory safety for every configuration (every escape read is inside the string: x2c needs 2 readable bytes, %u needs 4); wpos <= rpos <= len at the loop head; "
              "len' <= len; returns HTP_OK (HTP_ERROR iff path NULL); tx->flags only grow; expected status only takes configured values; terminates (variant len-rpos)")
 
@@ -266,17 +266,17 @@ URL_LOOP = dict(assigns='rpos, wpos, *flags, *expected_status_code, input->len, 
                 inv=['wpos <= rpos', 'rpos <= len', 'C12_FLAGS_GROW(*flags)', 'C12_STATUS_OK(*expected_status_code)'], dec='len - rpos')
 contract('htp_urldecode_inplace_ex', {'count': 1, 0: URL_LOOP},
          'void HARNESS(void) { htp_cfg_t *cfg; enum htp_decoder_ctx_t ctx; bstr *in; uint64_t *f; int *st; htp_urldecode_inplace_ex(cfg, ctx, in, f, st); CANARY(); }',
-         replace=['x2c', 'decode_u_encoding_params'], assumes=A_LEGAL + ['x2c and decode_u_encoding_params replaced by their contracts; decoder context any of its three enumerators'],
+         replace=['x2c/contract_x2c_site', 'decode_u_encoding_params'], assumes=A_LEGAL + ['x2c and decode_u_encoding_params replaced by their contracts; decoder context any of its three enumerators'],
          sub="generic decoder: memory safety for every configuration and context; wpos <= rpos <= len; len' <= len; returns HTP_OK; *flags only grow; status only takes configured values; terminates")
 
 UTF_LOOP = dict(assigns='rpos, wpos, codepoint, state, counter, seen_valid, tx->flags, tx->response_status_expected_number, ' + DATA,
-                inv=['wpos <= rpos', 'rpos <= len', 'C12_UTF8_HEAD(state, counter)', 'C12_FLAGS_GROW(tx->flags)', 'C12_STATUS_OK(tx->response_status_expected_number)'],
+                inv=['rpos <= len && wpos <= rpos && C12_UTF8_HEAD(state, counter) && wpos + counter <= rpos', 'C12_FLAGS_GROW(tx->flags)', 'C12_STATUS_OK(tx->response_status_expected_number)'],
                 dec='2 * (len - rpos) + (counter != 0 ? 1 : 0)')
 contract('htp_utf8_decode_path_inplace', {'count': 1, 0: UTF_LOOP},
          'void HARNESS(void) { htp_cfg_t *cfg; htp_tx_t *tx; bstr *p; htp_utf8_decode_path_inplace(cfg, tx, p); CANARY(); }',
          replace=['bestfit_codepoint'], link=('bstr.c', 'htp_utf8_decoder.c'),
          assumes=A_LEGAL + ['bestfit_codepoint replaced by its contract (real map: lemma c12_u_decode_realmap); the DFA step htp_utf8_decode_allow_overlong is the REAL function'],
-         sub="UTF-8 converter: memory safety; DFA state/byte-counter relation at the loop head (state in {0,2,3,5,7,8}, counter <= 3: no counter wrap, table index in range); wpos <= rpos <= len; "
+         sub="UTF-8 converter: memory safety; DFA state/byte-counter relation at the loop head (state in {0,2,3,5,7,8}, counter <= 3: no counter wrap, table index in range); wpos + counter <= rpos <= len (the bytes of an unfinished character are never overwritten); "
              "len' <= len; flags only grow; status only configured values; terminates (variant 2(len-rpos)+[inside a character])")
 contract('htp_utf8_validate_path', {'count': 1, 0: dict(assigns='rpos, codepoint, state, counter, seen_valid, tx->flags',
                                                         inv=['rpos <= len', 'C12_UTF8_HEAD(state, counter)', 'C12_FLAGS_GROW(tx->flags)'], dec='len - rpos')},
